@@ -1,6 +1,6 @@
 SPECIFICATION Spec
 CONSTANTS
-  MaxVariants = 4
+  MaxVariants = 3
   EmitCases = TRUE
   Kinds = {"unit", "empty_tuple", "empty_brace", "tuple1", "named1"}
 INVARIANTS
